@@ -100,6 +100,10 @@ CHECKS = {
             "(B) every history of <=2 (thorough 3) operations out of 19 (parse of calendar(TZID, definition, VTIMEZONE position), provider switch): each DTSTART of the calendar just parsed must have the offset of its own definition. "
             "Open findings (process-wide cache, forward references, dateutil near-onset behaviour) are matched by a cache model / a windowed signature.",
             "trusted: refmodel/rfc_tz.py interpreter and own yearly n-th-weekday expander; only consistent definitions; dateutil-built zones tolerated only within |offset|+|delta| of an onset for three named layouts", "3/C12"),
+    "C04": ("deviation-bounded exhaustive exploration (every single deviation at every line / byte of well-formed seeds, pairs in the thorough tier) plus bounded-exhaustive token soup, each input executed under both providers x multiple x bytes/str with a watchdog; differential isolation oracle over all ordered selections of good and bad lines",
+            "39 seeds in quick (14 generated + 25 smallest repository examples; thorough: all examples): delete/duplicate/swap/drop-value/drop-name/re-kind/16 junk values/36 hostile lines at every line, truncation at every byte, 64-deep wrapping; all sequences of <=2 (3) of 48 soup lines x 3 wrappers, all byte strings <=2, all strings <=3 over 11 characters: "
+            "from_ical + to_ical + walk terminate and raise nothing but ValueError. Isolation: ~76 000 VEVENT bodies (<=4 of 18 lines, <=2 bad, nested alarm): the VEVENT equals the parse without the bad lines, one error entry per bad line, strict containers raise ValueError.",
+            "trusted: the deviation generator in checks/c04.py; 'bad line' is defined operationally (parsing it alone in a strict component raises ValueError); termination observed with a watchdog, not proved; one open finding (sub-daily RRULE in a VTIMEZONE under pytz) matched by input kind + time-out", "3/C04"),
 }
 REASON_PENDING = "check under construction in this session; not claimed until it has been built, silenced on the unchanged tree and shown to detect a seeded change"
 ALL = [f"C{i:02d}" for i in range(1, 21)]
